@@ -179,8 +179,8 @@ func groupScalar(s *sink, g *hx.Gen) {
 }
 
 func chain(s *sink, t *hx.Ty, r *hx.Val, note string) {
-	before := hx.Canon(r)
 	argGo := r.ToGo()
+	before := hx.Canon(hx.Enc(argGo))
 	res, id0, v := s.emit("U", t, r, argGo, true, "class", note)
 	if after := hx.Canon(hx.Enc(argGo)); after != before {
 		s.finding(Finding{Prop: "C12", What: "Unserialize modified its argument", Cases: []int{id0}, Schema: t, Input: r, Detail: []string{before, after}})
